@@ -8,6 +8,8 @@ import (
 	"runtime"
 	"strconv"
 	"strings"
+	"syscall"
+	"time"
 )
 
 // GID returns the id of the calling goroutine.
@@ -145,4 +147,97 @@ func Summary(gs []G) []string {
 		out = append(out, strconv.FormatInt(g.ID, 10)+" ["+g.State+"] "+strings.Join(fr, " < "))
 	}
 	return out
+}
+
+// Spinning decides whether a library goroutine is stuck in a busy loop: it
+// watches until the PROCESS has consumed cpu of processor time (so a starved
+// machine proves nothing, and the verdict does not depend on the wall clock;
+// gives up after maxWall) and reports the library goroutines that were in
+// motion (not parked) in every one of the >= 20 censuses taken meanwhile with
+// one and the same library function - other than the goroutine's outermost
+// one - on their stack each time (a goroutine that merely has much to do
+// moves between the functions its main loop calls). done is polled: if it
+// returns true the awaited thing happened after all and nothing is reported.
+func Spinning(cpu, maxWall time.Duration, done func() bool) (spinners []G, consumed time.Duration) {
+	start, t0 := processCPU(), time.Now()
+	inMotion := map[int64]map[string]bool{} // goroutine id -> library functions (outermost excluded) on its stack in every census so far
+	samples := 0
+	for time.Since(t0) < maxWall {
+		time.Sleep(100 * time.Millisecond)
+		if done != nil && done() {
+			return nil, processCPU() - start
+		}
+		now := map[int64]map[string]bool{}
+		for _, g := range Lib() {
+			if !g.Parked() {
+				now[g.ID] = innerLibFuncs(g)
+			}
+		}
+		if samples == 0 {
+			inMotion = now
+		} else {
+			for id, fns := range inMotion {
+				cur, ok := now[id]
+				if !ok {
+					delete(inMotion, id)
+					continue
+				}
+				for fn := range fns {
+					if !cur[fn] {
+						delete(fns, fn)
+					}
+				}
+				if len(fns) == 0 {
+					delete(inMotion, id)
+				}
+			}
+		}
+		samples++
+		if len(inMotion) == 0 {
+			return nil, processCPU() - start
+		}
+		if samples >= 20 && processCPU()-start >= cpu {
+			break
+		}
+	}
+	consumed = processCPU() - start
+	if samples < 20 || consumed < cpu {
+		return nil, consumed
+	}
+	for _, g := range Lib() {
+		if _, ok := inMotion[g.ID]; ok && !g.Parked() {
+			spinners = append(spinners, g)
+		}
+	}
+	return spinners, consumed
+}
+
+// innerLibFuncs returns the library functions on the goroutine's stack except
+// the outermost one.
+func innerLibFuncs(g G) map[string]bool {
+	var fns []string
+	for _, l := range strings.Split(g.Stack, "\n")[1:] {
+		l = strings.TrimSpace(l)
+		if strings.HasPrefix(l, LibFrame) {
+			if p := strings.LastIndexByte(l, '('); p > 0 {
+				l = l[:p]
+			}
+			fns = append(fns, l)
+		}
+	}
+	out := map[string]bool{}
+	for i, f := range fns {
+		if i < len(fns)-1 {
+			out[f] = true
+		}
+	}
+	return out
+}
+
+func processCPU() time.Duration {
+	var ru syscall.Rusage
+	if syscall.Getrusage(syscall.RUSAGE_SELF, &ru) != nil {
+		return 0
+	}
+	return time.Duration(ru.Utime.Nano() + ru.Stime.Nano())
 }
